@@ -40,7 +40,11 @@ def write_plans(draw, n):
     for b in draw(st.lists(st.sampled_from(pool), unique=True, max_size=6)):
         if b == "photon3d" and "photon" in plan or b == "photon" and "photon3d" in plan:
             continue
-        vals = draw(st.lists(st.one_of(st.none(), st.integers(1, 200)), min_size=n, max_size=n))
+        elem = st.one_of(st.none(), st.integers(1, 200))
+        if b in ("pixel", "pixel_add", "signal", "charge", "photon"):
+            # these containers accept non-finite content (a model dividing by a zero flat leaves inf / nan behind)
+            elem = st.one_of(st.none(), st.integers(1, 200), st.integers(1, 200), st.sampled_from(["nan", "inf", "mix"]))
+        vals = draw(st.lists(elem, min_size=n, max_size=n))
         dt = "uint16" if b == "image" else draw(st.sampled_from(["float64", "float32"])) if b in ("photon", "signal", "pixel", "pixel_add") else "float64"
         plan[b] = {"dtype": dt, "values": vals}
     return plan
